@@ -218,6 +218,23 @@ def execute(trace, ctx):
     else:
         with open(path, "w") as f:
             f.write(text)
+    if len(trace["ops"]) % 6 == 2 and not trace.get("open_file") and not trace.get("rewritten_path"):
+        # the file is reached as <link>/../sys.gro where <link> points to a directory elsewhere: the operating system
+        # resolves the link first (so ".." is the parent of the link's TARGET); a lexical clean-up of the path lands on
+        # another file of the same name, which exists and holds another system
+        store = os.path.join(d, "store", "deep")
+        os.makedirs(store, exist_ok=True)
+        os.makedirs(os.path.join(d, "run"), exist_ok=True)
+        real_ = os.path.join(d, "store", "sys.gro")
+        os.replace(path, real_)
+        ls_ = text.split("\n")
+        for k_ in range(int(ls_[1])):
+            ls_[2 + k_] = "%5d%-5s" % (1 + k_ // 2, "DEC") + ls_[2 + k_][10:]
+        with open(os.path.join(d, "run", "sys.gro"), "w") as f_:
+            f_.write("\n".join(ls_))
+        os.symlink(store, os.path.join(d, "run", "latest"))
+        path = os.path.join(d, "run", "latest", "..", "sys.gro")
+        ctx.probe("path_through_a_linked_directory")
     try:
         if trace.get("open_file"):
             fh = open(path)                     # "Gromacs file path or open file"
